@@ -232,8 +232,10 @@ class Array:
             if not isinstance(value, Sized):
                 value = list(value)
             if len(value) == items_in_slice:
-                for s, v in zip(range(start, stop, step), value):
-                    self.data.overwrite(self._create_element(v), s * self._dtype.bitlength)
+                # Create all the elements first, so that a value that doesn't fit leaves the Array unchanged.
+                elements = [self._create_element(v) for v in value]
+                for s, element in zip(range(start, stop, step), elements):
+                    self.data.overwrite(element, s * self._dtype.bitlength)
             else:
                 raise ValueError(f"Can't assign {len(value)} values to an extended slice of length {items_in_slice}.")
         else:
